@@ -4,7 +4,10 @@ Proof: props/C07.v over model/ChartData.v (writers, readers, replace_data as a s
 machine over the data-bearing skeleton of a chart part).
 Tie: correspondence of the extracted model with python-pptx on every writable chart type
 (the list is read off ChartXmlWriter at run time) x generated chart data, followed by
-histories of replace_data, on generated charts and on the charts of the .pptx corpus.
+histories of replace_data, on generated charts, on the charts of the .pptx corpus and on
+FOREIGN start states made from both (c:ser elements stored out of c:order sequence, c:idx /
+c:order with gaps, series spread over the plots of a combination chart with c:order values
+interleaved across them) followed by growing, equal and shrinking replace_data.
 Compared: the skeleton re-read from ChartPart.blob with plain lxml (per plot, per c:ser:
 idx, order, tx text, cat / val / xVal / yVal / bubbleSize caches, the tags and content
 hashes of every other child, hashes of everything else in the part) and the read API
@@ -544,6 +547,83 @@ def set_date1904(chart):
     cs.insert(0, el)
 
 
+# ------------------------------------------------------------------ foreign start states
+# A chart python-pptx did not write: the c:ser elements of a plot are stored in a sequence that is not their
+# c:order sequence (what a file holds after the user re-ordered series), c:idx / c:order values are not
+# contiguous, the series are spread over several xChart elements (a combination chart) with c:order values
+# interleaved across the plots.  Described by
+#   spec = {"extra": [chart type, ...]    further plots, taken from charts of these types made from the same data
+#           "plot_of": [k, ...]           (with "extra") the plot series i of the data goes to
+#           "doc":   [i, ...]             document sequence of the series (read within each plot)
+#           "order": [v, ...], "idx": [v, ...]     c:order / c:idx value of series i
+#           "paint": bool}                every series gets a c:spPr of its own
+# series i = the i-th c:ser of the base chart counted plot by plot in document order.
+NS_A = "http://schemas.openxmlformats.org/drawingml/2006/main"
+
+
+def paint_ser(s, i):
+    from pptx.oxml import parse_xml
+
+    rgb = "%06X" % ((0x3F1D4B * (i + 1) + 0x102030) % 0x1000000)
+    sp = parse_xml('<c:spPr xmlns:c="%s" xmlns:a="%s"><a:solidFill><a:srgbClr val="%s"/></a:solidFill></c:spPr>' % (NS_C, NS_A, rgb))
+    old = s.find(C + "spPr")
+    if old is not None:
+        s.replace(old, sp)
+        return
+    after = s.find(C + "tx")
+    if after is None:
+        after = s.find(C + "order")
+    after.addnext(sp)
+
+
+def apply_foreign(chart, spec, donors):
+    from pptx.oxml import parse_xml
+
+    cs = chart._chartSpace
+    plots = xcharts(cs)
+    host_ax = plots[0].findall(C + "axId")
+    for d in donors:
+        dx = parse_xml(etree.tostring(xcharts(d._chartSpace)[0]))
+        dax = dx.findall(C + "axId")
+        if len(dax) == len(host_ax):
+            for a, b in zip(dax, host_ax):
+                a.set("val", b.get("val"))
+        xcharts(cs)[-1].addnext(dx)
+    plots = xcharts(cs)
+    by_i = {}
+    if donors:
+        for k, xc in enumerate(plots):
+            for i, s in enumerate(xc.findall(C + "ser")):
+                if spec["plot_of"][i] == k:
+                    by_i[i] = s
+                else:
+                    xc.remove(s)
+    else:
+        i = 0
+        for xc in plots:
+            for s in xc.findall(C + "ser"):
+                by_i[i] = s
+                i += 1
+    pos = dict((i, n) for n, i in enumerate(spec["doc"]))
+    for xc in plots:
+        ss = xc.findall(C + "ser")
+        if not ss:
+            if donors:
+                xc.getparent().remove(xc)
+            continue
+        at = xc.index(ss[0])
+        mine = sorted((i for i, s in by_i.items() if s.getparent() is xc), key=lambda i: pos[i])
+        for s in ss:
+            xc.remove(s)
+        for j, i in enumerate(mine):
+            xc.insert(at + j, by_i[i])
+    for i, s in by_i.items():
+        s.find(C + "idx").set("val", str(spec["idx"][i]))
+        s.find(C + "order").set("val", str(spec["order"][i]))
+        if spec.get("paint"):
+            paint_ser(s, i)
+
+
 def impl_run(case, deck):
     """-> (states, roots): states as the model prints them; roots = re-parsed blob per ok state."""
     init = case["init"]
@@ -552,7 +632,16 @@ def impl_run(case, deck):
     extra_tags = {}
     try:
         live = None
-        if init[0] == "W":
+        if init[0] == "F":  # a generated or corpus chart brought into a foreign start state
+            ids = Ids(False)
+            base, spec = init[1], init[2]
+            if base[0] == "W":
+                chart = deck.chart(base[1], build_chart_data(base[2]))
+                donors = [deck.chart(ct, build_chart_data(base[2])) for ct in spec.get("extra", [])]
+            else:
+                chart, donors = corpus_charts(base[1])[base[2]], []
+            apply_foreign(chart, spec, donors)
+        elif init[0] == "W":
             ids = Ids(True)
             live = build_chart_data(init[2])
             chart = deck.chart(init[1], live)
@@ -604,7 +693,8 @@ def model_case(case, succs):
     init = case["init"]
     raw0 = case.pop("_raw0", None)
     if init[0] == "W" or raw0 is None:
-        t += [0, init[1] if init[0] != "S" else 0] + data_tokens(init[2] if init[0] != "S" else {"k": "xy", "nf": "", "sers": []})
+        written = init[0] in ("W", "G")
+        t += [0, init[1] if written else 0] + data_tokens(init[2] if written else {"k": "xy", "nf": "", "sers": []})
     else:
         t.append(1)
         t += chart_tokens(raw0)
@@ -865,6 +955,30 @@ def oracle_replace(before, after, n_new):
 
     def nondata(s):
         return [c14n(k) for k in s if isinstance(k.tag, str) and not (k.tag.startswith(C) and localname(k) in data_tags)]
+
+    # which series are left: the first n of plotArea.sers (plot by plot, c:order sequence within a plot, which
+    # need not be the document sequence) with the c:idx / c:order they had; where they stand in the document
+    # relative to each other is chart content like any other and stays
+    def ident(s):
+        return (int(s.find(C + "idx").get("val")), int(s.find(C + "order").get("val")))
+
+    def doc_idents(root):
+        return [ident(s) for xc in xcharts(root) for s in xc.findall(C + "ser")]
+
+    ids_old, ids_new = [ident(s) for _x, s in old], [ident(s) for _x, s in new]
+    m = min(len(old), n_new)
+    if ids_new[:m] != ids_old[:m]:
+        if n_new < len(old):
+            problems.append(("replace-removed-wrong-series", "replace_data with %d series on a chart with %d: the series left have (c:idx, c:order) %r; the first %d in series order were %r (document sequence before: %r)" % (
+                n_new, len(old), ids_new[:8], m, ids_old[:m][:8], doc_idents(before)[:8])))
+        else:
+            problems.append(("replace-changed-idx-order", "replace_data changed c:idx / c:order of existing series: %r, were %r" % (ids_new[:m][:8], ids_old[:m][:8])))
+    elif len(set(ids_old)) == len(ids_old):
+        keep = set(ids_old[:m])
+        was = [x for x in doc_idents(before) if x in keep]
+        now = [x for x in doc_idents(after) if x in keep]
+        if was != now:
+            problems.append(("replace-reordered-series", "replace_data changed the document sequence of the c:ser elements it kept: (c:idx, c:order) %r, were %r" % (now[:8], was[:8])))
 
     for i in range(min(len(old), len(new))):
         if nondata(old[i][1]) != nondata(new[i][1]):
@@ -1190,6 +1304,103 @@ def gen_cases(tier, rng, types):
             reps = 2 if tier == "quick" else 24
             for _ in range(reps):
                 cases.append({"class": "corpus/%s" % first, "init": ["S", f, i], "ops": g_ops(rng, fam, rng.choice([1, 2, 3]), False)})
+    cases += gen_foreign_cases(tier, rng, types, files)
+    return cases
+
+
+def axis_class(name, fam):
+    if fam != "cat":
+        return fam
+    return "radar" if "RADAR" in name else "round" if ("DOUGHNUT" in name or "PIE" in name) else "axes"
+
+
+def g_foreign_spec(rng, n, nplots):
+    """c:order / c:idx values and a document sequence for n series; with nplots > 1 also the plot of each."""
+    def vals():
+        r = rng.random()
+        if r < 0.3:
+            v = list(range(n))                              # contiguous, permuted
+        elif r < 0.5:
+            v = list(range(1, n + 1))                       # one-based
+        else:
+            v = rng.sample(range(0, 3 * n + 3), n)          # gaps
+        rng.shuffle(v)
+        return v
+
+    doc = list(range(n))
+    rng.shuffle(doc)
+    spec = {"doc": doc, "order": vals(), "idx": vals(), "paint": True}
+    if rng.random() < 0.25:
+        spec["idx"] = list(spec["order"])                   # idx = order, as most producers write
+    if nplots > 1:
+        po = list(range(nplots)) + [rng.randrange(nplots) for _ in range(n - nplots)]
+        rng.shuffle(po)
+        spec["plot_of"] = po
+    return spec
+
+
+def g_count_ops(rng, fam, n):
+    """replace_data steps for a chart with n series: growing, equal and (always at least one) shrinking"""
+    plan = rng.choice(["s", "s", "sg", "es", "gs", "ss", "sgs", "ges"])
+    ops, cur = [], n
+    for step in plan:
+        if step == "s" and cur > 1:
+            cur = rng.randint(1, cur - 1)
+        elif step == "g":
+            cur = cur + rng.randint(1, 3)
+        shape = {"nser": cur}
+        if fam == "cat":
+            r = rng.random()
+            shape.update({"cats": "multi"} if r < 0.2 else {"cats": "date"} if r < 0.3 else {"cats": "num"} if r < 0.4 else {})
+        ops.append(g_data(rng, fam, shape))
+    return ops
+
+
+def gen_foreign_cases(tier, rng, types, files):
+    cases = []
+    reps = 1 if tier == "quick" else 8
+    plain = [t for t in types if not t[3]]
+    # the start state of C07_ex_foreign_shrink (bar + line, document sequence order 9 2 5 | 7 3, idx 4 8 0 | 6 1),
+    # replaced with two and with four series
+    by_name = dict((t[1], t[0]) for t in types)
+    if "COLUMN_CLUSTERED" in by_name and "LINE_MARKERS" in by_name:
+        for nser in (2, 4):
+            d = g_cat_data(rng, {"nser": 5, "ncat": 2})
+            spec = {"extra": [by_name["LINE_MARKERS"]], "plot_of": [0, 0, 0, 1, 1], "doc": [0, 1, 2, 3, 4], "order": [9, 2, 5, 7, 3],
+                    "idx": [4, 8, 0, 6, 1], "paint": True}
+            cases.append({"class": "foreign/combination", "init": ["F", ["W", by_name["COLUMN_CLUSTERED"], d], spec],
+                          "ops": [g_cat_data(rng, {"nser": nser, "ncat": 2})]})
+    for ti, (ct, name, fam, pie) in enumerate(plain):
+        mates = [t for t in plain if axis_class(t[1], t[2]) == axis_class(name, fam)]
+        for rep in range(reps):
+            # one plot, series stored out of c:order sequence
+            n = rng.randint(3, 7)
+            d = g_data(rng, fam, {"nser": n, "ncat": rng.randint(1, 4)} if fam == "cat" else {"nser": n, "npts": rng.randint(1, 4)})
+            cases.append({"class": "foreign/one-plot", "init": ["F", ["W", ct, d], g_foreign_spec(rng, n, 1)], "ops": g_count_ops(rng, fam, n)})
+            # a combination chart: two or three plots, c:order interleaved across them
+            k = rng.choice([1, 1, 2])
+            n = rng.randint(k + 2, 8)
+            d = g_data(rng, fam, {"nser": n, "ncat": rng.randint(1, 4)} if fam == "cat" else {"nser": n, "npts": rng.randint(1, 4)})
+            spec = g_foreign_spec(rng, n, k + 1)
+            spec["extra"] = [rng.choice(mates)[0] for _ in range(k)]
+            cases.append({"class": "foreign/combination", "init": ["F", ["W", ct, d], spec], "ops": g_count_ops(rng, fam, n)})
+    # corpus charts with their series re-ordered
+    for f in files:
+        try:
+            charts = corpus_charts(f)
+        except Exception:  # noqa
+            continue
+        for i, ch in enumerate(charts):
+            xcs = xcharts(etree.fromstring(ch.part.blob))
+            n = sum(len(xc.findall(C + "ser")) for xc in xcs)
+            if n < 2:
+                continue
+            first = localname(xcs[0])
+            fam = {"bubbleChart": "bub", "scatterChart": "xy"}.get(first, "cat")
+            for _ in range(reps):
+                spec = g_foreign_spec(rng, n, 1)
+                spec["paint"] = False
+                cases.append({"class": "foreign/corpus", "init": ["F", ["S", f, i], spec], "ops": g_count_ops(rng, fam, n)})
     return cases
 
 
@@ -1230,7 +1441,7 @@ def check_case(ck, case, deck, types_by_ct, report=True):
     pie = init[0] == "W" and types_by_ct.get(init[1], (0, "", "", False))[3]
     datas = ([init[2]] if init[0] in ("W", "G") else [None]) + case["ops"]
     baseline = set()
-    if init[0] == "S" and roots:
+    if init[0] in ("S", "F") and roots:
         baseline = set(s for s, _m in xsd_problems(roots[0]))
     ri = 0
     for k, st in enumerate(states):
@@ -1287,13 +1498,16 @@ def run(ck, tier, rng):
     model_in, impl_states = [], []
     for case in cases:
         states, problems, _msg = check_case(ck, case, deck, types_by_ct)
-        ck.count(json.dumps(dict((k, v) for k, v in case.items() if k != "_raw0"), sort_keys=True, default=str), nontrivial(case), case["class"].split("/")[0] if case["class"].startswith(("corpus", "malformed")) else case["class"].split("/")[-1])
+        ck.count(json.dumps(dict((k, v) for k, v in case.items() if k != "_raw0"), sort_keys=True, default=str), nontrivial(case), case["class"] if case["class"].startswith("foreign") else case["class"].split("/")[0] if case["class"].startswith(("corpus", "malformed")) else case["class"].split("/")[-1])
         ck.dist["states"] = ck.dist.get("states", 0) + len(states)
         report_problems(ck, case, problems, states)
         impl_states.append(states)
         model_in.append(model_case(case, succs))
     for c in cases[:2] + [c for c in cases if c["class"].startswith("corpus")][:2] + [c for c in cases if "multi34" in c["class"]][:1]:
         ck.sample({"class": c["class"], "init": c["init"][:2] if c["init"][0] != "S" else c["init"], "n_ops": len(c["ops"])}, limit=8)
+    for c in [c for c in cases if c["class"] == "foreign/combination"][:1] + [c for c in cases if c["class"] == "foreign/corpus"][:1]:
+        ck.sample({"class": c["class"], "base": c["init"][1][:2] if c["init"][1][0] == "W" else c["init"][1], "foreign": c["init"][2],
+                   "series_counts": [len(d["sers"]) for d in c["ops"]]}, limit=10)
     concrete_before = len(ck.violations)
     diffs = 0
     first_bad = None
@@ -1309,8 +1523,9 @@ def run(ck, tier, rng):
                 if first_bad is None:
                     first_bad = (case, d)
         if diffs and len(ck.violations) == concrete_before:
-            ck.violation("correspondence", "model/ChartData.v and python-pptx disagree on %d of %d cases, first [%s]: %s; the oracle found no input on which the property itself fails" % (
-                diffs, len(cases), first_bad[0]["class"], first_bad[1][:300]),
+            ck.violation("correspondence", "model/ChartData.v and python-pptx disagree on %d of %d cases, first [%s]: %s; %s" % (
+                diffs, len(cases), first_bad[0]["class"], first_bad[1][:300],
+                "the oracle's findings are reported separately" if concrete_before else "the oracle found no input on which the property itself fails"),
                 {"theorem_or_correspondence": "correspondence ChartData.v ~ chart/xmlwriter.py, data.py, category.py, series.py, oxml/chart (theorems C07_* are about the model only)",
                  "input": first_bad[0], "diff": first_bad[1]}, concrete=False)
     witness = None
@@ -1324,9 +1539,10 @@ def run(ck, tier, rng):
                          {"theorem_or_correspondence": "C07_foreign_levels_refuted replay", "model_outcome": wm, "impl_outcome": wi}, concrete=False)
     ck.broken_build(oracle_found_concrete=len(ck.violations) > 0)
     return ck.finish(
-        rule="%d writable chart types (from ChartXmlWriter) x data shapes (tiny, typical, holes, unequal lengths, no series, empty series, 2 and 3-4 level ragged categories, numeric, dates around 1900-02-28/03-01, up to 50 series / 300 points, random) each followed by 0-3 replace_data with data of another shape; named situations (no series, all series removed, pie with several series, empty label, carriage return, 1904 date system); a malformed stream (unknown type, wrong data family, non-uniform depth, pie without series); every chart of the .pptx corpus with 1-3 replace_data.  non-trivial = some chart data of the case has a series with at least one point (and at least one category for category data)" % len(types),
+        rule="%d writable chart types (from ChartXmlWriter) x data shapes (tiny, typical, holes, unequal lengths, no series, empty series, 2 and 3-4 level ragged categories, numeric, dates around 1900-02-28/03-01, up to 50 series / 300 points, random) each followed by 0-3 replace_data with data of another shape; named situations (no series, all series removed, pie with several series, empty label, carriage return, 1904 date system); a malformed stream (unknown type, wrong data family, non-uniform depth, pie without series); every chart of the .pptx corpus with 1-3 replace_data; foreign start states (every non-pie chart type once as one plot and once as a combination chart of 2-3 plots of compatible types, every corpus chart with at least two series: c:ser elements permuted in the document, c:idx / c:order values permuted, with gaps, interleaved across plots, every series with a c:spPr of its own) each followed by 1-3 replace_data of which at least one has fewer series.  non-trivial = some chart data of the case has a series with at least one point (and at least one category for category data)" % len(types),
         trusted_base=TB, assumptions=ASSUME,
-        extra={"correspondence_diffs": diffs, "chart_types": [t[1] for t in types], "exhaustive": False,
+        extra={"correspondence_diffs": diffs, "foreign_start_states": sum(1 for c in cases if c["class"].startswith("foreign")),
+               "shrinking_replaces_on_foreign_states": sum(1 for c in cases if c["class"].startswith("foreign") for a, b in zip([len(c["init"][2]["order"])] + [len(d["sers"]) for d in c["ops"]], [len(d["sers"]) for d in c["ops"]]) if b < a), "chart_types": [t[1] for t in types], "exhaustive": False,
                "successors_live": succs, "foreign_levels_witness": witness},
     )
 
@@ -1354,7 +1570,7 @@ def replay(rec):
 
 CLAIM = {
     "tech": "Coq proof over a Gallina model of the chart writers, the readers and replace_data as a state machine (all chart data, all category forests, all replace_data histories, arbitrary successor declarations) + extracted-model correspondence on real charts of every writable type and of the .pptx corpus + independent oracle on the XML and the read API incl. XSD validation",
-    "text": "22 theorems and 7 examples closed under the global context: series names, values (None positions, empty series), X values and bubble sizes read back as supplied; categories read back at every level, flattened_labels = root-to-leaf paths for ragged forests of any depth (level idx = first-leaf offset), numbers as Python's text, dates as the Excel serial (1900 leap-year quirk and 1904 system); c:idx / c:order unique after any sequence of replace_data (fold over operations); replace_data reports the new names, values and categories, keeps idx, order and every non-data child of surviving series, the date system and everything outside the xChart elements, removes exactly the last series of plotArea.sers and exactly the plots left without any. names, labels and number formats come back verbatim for every string (empty, markup characters, carriage returns) and never make a writer fail. Where the model refutes the statement the witness is proved and replayed: pie writer keeps one series, replace_data fails on charts without series or without plots (three earlier refutations -- empty label read as 'None', a double quote in a date number format, carriage return read as line feed -- were fixed in python-pptx and are now regression examples). The model is tied to chart/xmlwriter.py, data.py, category.py, series.py, plot.py and oxml/chart by ~700 (quick) / ~8300 (thorough) histories on all 29 chart types (list read off ChartXmlWriter) and the 95 corpus charts, comparing the skeleton re-read from ChartPart.blob and the read API state by state.",
+    "text": "24 theorems and 8 examples closed under the global context: series names, values (None positions, empty series), X values and bubble sizes read back as supplied; categories read back at every level, flattened_labels = root-to-leaf paths for ragged forests of any depth (level idx = first-leaf offset), numbers as Python's text, dates as the Excel serial (1900 leap-year quirk and 1904 system); c:idx / c:order unique after any sequence of replace_data (fold over operations); replace_data reports the new names, values and categories, keeps idx, order and every non-data child of surviving series, the date system and everything outside the xChart elements, removes exactly the last series of plotArea.sers and exactly the plots left without any -- on any start state: the document sequence of the c:ser elements and their c:order sequence are modelled separately, the survivors of a shrinking replace are the first n in series sequence whatever the document sequence (C07_shrink_survivors), and no c:ser is ever moved in the document (C07_replace_document_order), with an example on a two-plot chart whose c:order values are interleaved and out of document sequence. names, labels and number formats come back verbatim for every string (empty, markup characters, carriage returns) and never make a writer fail. Where the model refutes the statement the witness is proved and replayed: pie writer keeps one series, replace_data fails on charts without series or without plots (three earlier refutations -- empty label read as 'None', a double quote in a date number format, carriage return read as line feed -- were fixed in python-pptx and are now regression examples). The model is tied to chart/xmlwriter.py, data.py, category.py, series.py, plot.py and oxml/chart by ~850 (quick) / ~9300 (thorough) histories on all 29 chart types (list read off ChartXmlWriter), the 95 corpus charts and ~120 (quick) / ~900 (thorough) foreign start states made from both (series permuted in the document, c:idx / c:order permuted with gaps, combination charts), comparing the skeleton re-read from ChartPart.blob and the read API state by state.",
     "note": "numbers travel as the text str() gives and are compared as exact rationals of float(text); c:f references and the workbook are C08's, non-XML characters C05's; validity is judged by libxml2 on dml-chart.xsd after resolving mc:AlternateContent; formatting children and everything outside c:ser are opaque content hashes.",
     "ref": "6/C07",
 }
